@@ -17,7 +17,7 @@ from fractions import Fraction
 
 from .. import tae_conf
 from ..common import field_accesses, is_derived_impl, lib_reachable, short, where
-from ..exprs import factors, is_const, mentions, strip, terms, uncast
+from ..exprs import simplify, factors, is_const, mentions, strip, terms, uncast
 from ..mirlib import Expr, Program, expr_str
 from ..tae import DIRS, DIR_OFF, TableError, Tables, arc_geometry, frag_points
 
@@ -190,6 +190,63 @@ def run(run):
                                 good = False
                                 selective = "the cells are taken from `%s`, not directly from the cell map" % expr_str(strip(mmz[0][2][0]))[:100]
                         ok = ok and bool(good)
+        if not ok:
+            # the same extremes accumulated in a `for` loop: every definition of a coordinate is `cell.c` of an item of
+            # the iteration over all keys/entries of the map, or min/max (the right one) of the running value and `cell.c`
+            some2 = [strip(simplify(r)) for r in rets]
+            some2 = [r for r in some2 if r[0] == "agg" and r[2] == "Some"]
+            if len(some2) == 1:
+                tup = strip(some2[0][3][0][1])
+                if tup[0] == "agg" and len(tup[3]) == 2:
+                    good_all = True
+                    for idx, (_, cell) in enumerate(tup[3]):
+                        cell = strip(cell)
+                        if not (cell[0] == "call" and cell[1].endswith("cell::Cell::new") and len(cell[2]) == 2):
+                            good_all = False
+                            continue
+                        want_op = "min" if idx == 0 else "max"
+                        for a, coord in zip(cell[2], ("x", "y")):
+                            state = {"items": 0, "ops": 0, "bad": None}
+
+                            def item_ok(e):
+                                e = strip(e)
+                                if e[0] != "field" or tuple(e[2])[-1:] != (coord,):
+                                    return False
+                                nx = []
+                                mentions(e, lambda z: z[0] == "call" and z[1].endswith("Iterator>::next") and nx.append(z) and False)
+                                if not nx:
+                                    return False
+                                calls_ = []
+                                mentions(nx[0], lambda z: z[0] in ("call", "mutated_by") and calls_.append(z[1]) and False)
+                                plain = all(re.search(r"Iterator>::next$|::keys$|::iter$|IntoIterator>?::into_iter$|[dD]eref>?::deref$", c_) for c_ in calls_)
+                                over_self = mentions(nx[0], lambda z: z == ("param", 1, ()))
+                                return plain and over_self
+
+                            def walk(e, depth=0):
+                                e = strip(e)
+                                if depth > 12 or e[0] == "deep":
+                                    return
+                                if e[0] == "phi":
+                                    for x in e[1]:
+                                        walk(x, depth + 1)
+                                    return
+                                if e[0] == "call" and re.search(r"cmp::(Ord::)?(min|max)$|Ord>?::(min|max)$", e[1]) and len(e[2]) == 2:
+                                    if not e[1].endswith(want_op):
+                                        state["bad"] = "uses %s for the %s corner" % (e[1].split("::")[-1], "top-left" if idx == 0 else "bottom-right")
+                                    state["ops"] += 1
+                                    for x in e[2]:
+                                        walk(x, depth + 1)
+                                    return
+                                if item_ok(e):
+                                    state["items"] += 1
+                                    return
+                                state["bad"] = "contains `%s`" % expr_str(e)[:60]
+
+                            walk(a)
+                            if state["bad"] or not state["items"] or not state["ops"]:
+                                good_all = False
+                                selective = state["bad"] or "no running min/max over the cells found"
+                    ok = good_all
         if ok:
             run.ok("C12.M1", "bounds() = ((min x, min y), (max x, max y)) of the occupied cells", where(bb))
         else:
